@@ -955,8 +955,9 @@ func genContainer(t testing.TB, r *rand.Rand, p *c16Pools, v int64) *legacy {
 	perm := r.Perm(len(p.cid))
 	for j, i := range perm[:n+pre] {
 		cid := p.cid[i]
-		ow := pick(r, p.owner)
-		tr := cnrTruth{value: p.container(ow, i), sig: p.junk[3], pub: pick(r, p.pub), token: pick(r, [][]byte{{}, p.junk[1]}), owner: ow}
+		// attributes are a function of the id (keeps the number of distinct values small)
+		ow := p.owner[i%len(p.owner)]
+		tr := cnrTruth{value: p.container(ow, i), sig: p.junk[3], pub: p.pub[i%len(p.pub)], token: [][]byte{{}, p.junk[1]}[i%2], owner: ow}
 		val := ser(t, siStruct(siBytes(tr.value), siBytes(tr.sig), siBytes(tr.pub), siBytes(tr.token)))
 		if j < n {
 			l.put(cid, val)
@@ -1031,10 +1032,11 @@ func genNetmap(t testing.TB, r *rand.Rand, p *c16Pools, v int64) *legacy {
 		}
 		var nodes []nmNode
 		var items []stackitem.Item
-		for _, j := range r.Perm(len(p.blob))[:n] {
+		off := r.Intn(3) // node sets are slices of the blob pool (few distinct snapshots)
+		for j := off; j < off+n; j++ {
 			nd := nmNode{blob: p.blob[j], state: 1}
 			if !old {
-				nd.state = int64(1 + r.Intn(3))
+				nd.state = int64(1 + j%3)
 				items = append(items, siStruct(siBytes(nd.blob), siInt(nd.state)))
 			} else {
 				items = append(items, siStruct(siBytes(nd.blob)))
